@@ -71,6 +71,12 @@ func genExArg(r *rand.Rand) V {
 	case 5:
 		return V{T: 'b', B: true}
 	case 6:
+		if r.Intn(2) == 0 {
+			// a Condition (any form) that holds a Stack: the outer Condition's expression is a Condition, not a Stack -
+			// accepted under no-nesting, and IsNesting of the outer one stays false
+			return V{T: 'C', Form: []string{"n", "a", "p"}[r.Intn(3)], Kw: "in", Op: "c1",
+				Xs: []V{{T: 'K', Form: "n", Cfg: Cfg{Kind: 1 + r.Intn(4)}, Xs: []V{{T: 's', S: "x"}, {T: 'i', I: 2}}}}}
+		}
 		return V{T: 'C', Form: "n", Kw: "in", Op: "c1", Xs: []V{{T: 'i', I: 9}}}
 	case 7:
 		return V{T: 'Z', Form: "n"}
